@@ -48,6 +48,7 @@ pub enum Fam {
 	Shapes,
 	NearMiss,
 	Prefix,
+	OddValues,
 	Nest,
 	DiamondNest,
 	DiamondFwd,
@@ -73,6 +74,7 @@ impl Fam {
 			Fam::Shapes => "shapes".into(),
 			Fam::NearMiss => "nearmiss".into(),
 			Fam::Prefix => "prefix".into(),
+			Fam::OddValues => "oddvals".into(),
 			Fam::Nest => "nest".into(),
 			Fam::DiamondNest => "diamond-nest".into(),
 			Fam::DiamondFwd => "diamond-fwd".into(),
@@ -88,12 +90,12 @@ impl Fam {
 		if let Some(l) = s.strip_prefix("nodes-") {
 			return l.parse().ok().map(Fam::Nodes);
 		}
-		[Fam::SelfTest, Fam::Decor, Fam::Decor2, Fam::Shapes, Fam::NearMiss, Fam::Prefix, Fam::Nest, Fam::DiamondNest, Fam::DiamondFwd, Fam::DiamondBuilder, Fam::RefChainText, Fam::RefChainBuilder, Fam::ArrayChainBuilder, Fam::WideText, Fam::WideBuilder]
+		[Fam::SelfTest, Fam::Decor, Fam::Decor2, Fam::Shapes, Fam::NearMiss, Fam::Prefix, Fam::OddValues, Fam::Nest, Fam::DiamondNest, Fam::DiamondFwd, Fam::DiamondBuilder, Fam::RefChainText, Fam::RefChainBuilder, Fam::ArrayChainBuilder, Fam::WideText, Fam::WideBuilder]
 			.into_iter()
 			.find(|f| f.name() == s)
 	}
 	pub fn is_text(self) -> bool {
-		matches!(self, Fam::Shapes | Fam::NearMiss | Fam::Prefix | Fam::Nest | Fam::DiamondNest | Fam::DiamondFwd | Fam::RefChainText | Fam::WideText)
+		matches!(self, Fam::Shapes | Fam::NearMiss | Fam::Prefix | Fam::OddValues | Fam::Nest | Fam::DiamondNest | Fam::DiamondFwd | Fam::RefChainText | Fam::WideText)
 	}
 	pub fn is_ladder(self) -> bool {
 		matches!(self, Fam::DiamondNest | Fam::DiamondFwd | Fam::DiamondBuilder | Fam::RefChainText | Fam::RefChainBuilder | Fam::ArrayChainBuilder | Fam::WideText | Fam::WideBuilder)
@@ -183,6 +185,7 @@ impl Ctx {
 			}
 			Fam::NearMiss => self.near.as_ref().unwrap().count(),
 			Fam::Prefix => self.prefixes.count(),
+			Fam::OddValues => ct::odd_count(),
 			Fam::Nest => (ct::NEST_PATTERNS * ct::nest_depths(self.thorough).len()) as u64,
 			Fam::DiamondNest | Fam::DiamondFwd | Fam::DiamondBuilder => DIAMOND_MAX as u64,
 			Fam::RefChainText | Fam::RefChainBuilder | Fam::ArrayChainBuilder => CHAIN_RUNGS.len() as u64,
@@ -242,6 +245,10 @@ impl Ctx {
 			}
 			Fam::NearMiss => {
 				let (text, desc) = self.near.as_ref().unwrap().case(idx);
+				Case::Text { text, desc }
+			}
+			Fam::OddValues => {
+				let (text, desc) = ct::odd_case(idx);
 				Case::Text { text, desc }
 			}
 			Fam::Prefix => {
